@@ -33,6 +33,8 @@ struct Ref {
     std::vector<int> limits;                  // effective level limits per the documentation
     bool limits_trusted = true;               // false after limits were tightened below existing levels (scope decision of C08)
     int nloads = 0; int model_kind = 0;
+    bool coeffs_stale = false;                // after removePointsByHierarchicalCoefficient the kept coefficients are not those of the kept values (until the next load)
+    std::set<Pt> stale;                       // loaded points whose stored value is not a supplied one (after a coefficient overwrite) until they are re-supplied
     std::set<Pt> present;                     // every point the grid has held or been given so far (C08: domination of new limits)
 };
 
@@ -42,7 +44,8 @@ struct ApplyInfo { std::vector<double> cand; std::vector<double> delivered; bool
 
 // record supplied values in the reference map
 inline void ref_supply(Ref &r, const std::vector<double> &x, const std::vector<double> &v, int d, int outs){
-    for(size_t i=0;i<x.size()/d;i++) r.vals[Pt(x.begin()+i*d, x.begin()+(i+1)*d)] = std::vector<double>(v.begin()+i*outs, v.begin()+(i+1)*outs);
+    for(size_t i=0;i<x.size()/d;i++){ Pt p(x.begin()+i*d, x.begin()+(i+1)*d); r.vals[p] = std::vector<double>(v.begin()+i*outs, v.begin()+(i+1)*outs); r.stale.erase(p); }
+    r.vals_valid = r.stale.empty();
 }
 inline void ref_set_limits(Ref &r, const std::vector<int> &L){ if (!L.empty()) r.limits = L; }
 
@@ -75,7 +78,7 @@ inline bool apply(TasmanianSparseGrid &g, const Op &op, Ref &r, ApplyInfo *info 
         if (constr || outs == 0 || g.getNumPoints() == 0) return false;
         auto x = (g.getNumNeeded() > 0) ? g.getNeededPoints() : g.getLoadedPoints();
         auto v = model_values(op.a, x, d, outs);
-        ref_supply(r, x, v, d, outs); r.vals_valid = true; r.nloads++; r.model_kind = op.a;
+        ref_supply(r, x, v, d, outs); r.nloads++; r.model_kind = op.a; r.coeffs_stale = false;
         g.loadNeededValues(v); return true;
     }
     if (k == "refsurp"){ // a tol, b criteria, c output, d scale mode, e limits, f overload (0 vector, 1 raw)
@@ -86,6 +89,40 @@ inline bool apply(TasmanianSparseGrid &g, const Op &op, Ref &r, ApplyInfo *info 
         if (op.f == 0) g.setSurplusRefinement(tol_of(op.a), crit_of(op.b), op.c, L, s);
         else g.setSurplusRefinement(tol_of(op.a), crit_of(op.b), op.c, L.empty() ? nullptr : L.data(), s.empty() ? nullptr : s.data());
         return true;
+    }
+    if (k == "round"){ // macro transition: one complete adaptive round = refine (a tol, b criteria / type) then load the model values of the needed points
+        if (constr || outs == 0 || g.getNumLoaded() == 0 || g.getNumNeeded() > 0) return false;
+        if (local) g.setSurplusRefinement(tol_of(op.a), crit_of(op.b), -1, std::vector<int>());
+        else if (nonNestedGlobal(g)) return false;
+        else g.setAnisotropicRefinement(type_of(op.b), 2, 0, std::vector<int>());
+        if (g.getNumNeeded() == 0) return true;
+        auto x = g.getNeededPoints(); auto v = model_values(r.model_kind, x, d, outs); ref_supply(r, x, v, d, outs); r.nloads++; r.coeffs_stale = false;
+        g.loadNeededValues(v); return true;
+    }
+    if (k == "rmpoints"){ // removePointsByHierarchicalCoefficient: a tolerance index (b = 0) or the number of points to keep (b = 1, a = count)
+        if (!g.isLocalPolynomial() || constr || outs == 0 || g.getNumLoaded() < 4 || g.getNumNeeded() > 0) return false;
+        if (op.b == 0) g.removePointsByHierarchicalCoefficient(tol_of(op.a), -1); else g.removePointsByHierarchicalCoefficient(std::max(2, g.getNumLoaded() * op.a / 4), -1);
+        r.coeffs_stale = true;
+        return true;
+    }
+    if (k == "deliverpair"){ // two user-chosen samples in one batch: points a and b of the full grid of depth c (enumerated exhaustively by the C04 pair experiment)
+        if (!constr || !g.isLocalPolynomial()) return false;
+        TasmanianSparseGrid fine; fine.makeLocalPolynomialGrid(d, 0, op.c, g.getOrder(), g.getRule()); auto xf = fine.getPoints(); int nf = fine.getNumPoints();
+        if (op.a >= nf || op.b >= nf) return false;
+        std::vector<double> y(xf.begin() + (size_t) op.a*d, xf.begin() + (size_t)(op.a+1)*d); if (op.b != op.a) y.insert(y.end(), xf.begin() + (size_t) op.b*d, xf.begin() + (size_t)(op.b+1)*d);
+        { auto xl = g.getLoadedPoints(); std::set<Pt> have; for(size_t i=0;i+d<=xl.size();i+=d) have.insert(Pt(xl.begin()+i, xl.begin()+i+d)); for(size_t i=0;i+d<=y.size();i+=d) if (have.count(Pt(y.begin()+i, y.begin()+i+d))) return false; } // a loaded point is not delivered again
+        auto v = model_values(r.model_kind, y, d, outs); ref_supply(r, y, v, d, outs); if (info) info->delivered = y;
+        g.loadConstructedPoints(y, v); return true;
+    }
+    if (k == "deliverx"){ // samples the user computed on his own: every point i of the two-levels-deeper full grid with i % 3 == a (an irregular set with holes in the hierarchy), minus the loaded ones
+        if (!constr || !g.isLocalPolynomial()) return false;
+        TasmanianSparseGrid fine; fine.makeLocalPolynomialGrid(d, 0, op.b, g.getOrder(), g.getRule());
+        if (g.isSetDomainTransfrom()){ std::vector<double> ta, tb; g.getDomainTransform(ta, tb); fine.setDomainTransform(ta, tb); }
+        auto xf = fine.getPoints(); std::set<Pt> have; { auto xl = g.getLoadedPoints(); for(size_t i=0;i+d<=xl.size();i+=d) have.insert(Pt(xl.begin()+i, xl.begin()+i+d)); }
+        std::vector<double> y; for(size_t i=0;i<xf.size()/d;i++) if ((int)(i % 3) == op.a){ Pt p(xf.begin()+i*d, xf.begin()+(i+1)*d); if (!have.count(p)) y.insert(y.end(), p.begin(), p.end()); }
+        if (y.empty() || y.size() / d > 60) return false;
+        auto v = model_values(r.model_kind, y, d, outs); ref_supply(r, y, v, d, outs); if (info) info->delivered = y;
+        g.loadConstructedPoints(y, v); return true;
     }
     if (k == "refaniso"){ // a type, b min_growth, c output, e limits
         if (local || constr || outs == 0 || g.getNumLoaded() == 0 || op.c >= outs || nonNestedGlobal(g)) return false;
@@ -115,6 +152,7 @@ inline bool apply(TasmanianSparseGrid &g, const Op &op, Ref &r, ApplyInfo *info 
     if (k == "setcoef"){
         if (outs == 0 || constr || g.getNumLoaded() == 0 || g.getNumNeeded() > 0) return false;
         size_t n = (size_t) g.getNumPoints() * outs * (g.isFourier() ? 2 : 1); std::vector<double> c(n); for(size_t i=0;i<n;i++) c[i] = std::cos(0.7 * i + 0.1 + op.a) / (1.0 + 0.05 * i);
+        { auto xl = g.getLoadedPoints(); for(size_t i=0;i+d<=xl.size();i+=d) r.stale.insert(Pt(xl.begin()+i, xl.begin()+i+d)); }
         g.setHierarchicalCoefficients(c); r.vals_valid = false; return true;
     }
     if (k == "clearlim"){ if (g.getLevelLimits().empty()) return false; g.clearLevelLimits(); r.limits.clear(); return true; }
